@@ -42,6 +42,9 @@ pub enum After {
     /// request timer fires and V retransmits it (needs request_retries >= 2) - re-sending old
     /// ciphertext is no use of the session - and then the peer sends V a request under its session
     PeerSubmitsAfterRetransmission,
+    /// like VSubmitsAfterKnocks, but what keeps arriving is a copy of the handshake packet the peer
+    /// once sent (no challenge is outstanding: the packet is ignored - it is no use of the session)
+    VSubmitsAfterHandshakeKnocks,
 }
 
 #[derive(Clone, Copy, Debug, PartialEq, Eq, Hash, Serialize, Deserialize)]
@@ -269,10 +272,33 @@ async fn run(case: &Case, rep: &mut CaseReport) -> Option<(String, String)> {
             }
             COp::SubmitLost(p) => {
                 let p = 1 + (p as usize % n_peers as usize);
-                if !case.short_timeout || case.nat & (1 << (p - 1)) != 0 || cut_at.contains_key(&p) {
+                if case.nat & (1 << (p - 1)) != 0 || cut_at.contains_key(&p) {
                     continue;
                 }
                 let held = w.snaps[0].sessions.iter().any(|s| s.addr.socket_addr == w.nodes[p].addr);
+                if !case.short_timeout {
+                    // 1-day regime: the request is encrypted under the session (a use of it), lost, and
+                    // times out for good; the session stays (it is kept for future use)
+                    if !held || case.retries > 1 {
+                        continue;
+                    }
+                    act(&mut w, &Op::Submit { from: 0, to: p as u8, body: Body::Ping, with_record: true });
+                    w.settle().await;
+                    w.step += 1;
+                    w.pool.clear();
+                    crate::engines::wire_interp::advance(&mut w, Duration::from_millis(REQUEST_TIMEOUT_MS * 3 / 2)).await;
+                    w.pool.clear();
+                    last_use.insert(p, opi + 1);
+                    last_touch.insert(p, Instant::now());
+                    rep.class("request-under-a-live-session-lost-and-timed-out(1-day regime)");
+                    if !w.snaps[0].sessions.iter().any(|s| s.addr.socket_addr == w.nodes[p].addr) {
+                        return Some((
+                            "sessions/session-lost-without-capacity-pressure".into(),
+                            format!("V's request to peer {p} went unanswered and timed out; V's session with that peer is gone although nothing needed room (timeout 1 day)"),
+                        ));
+                    }
+                    continue;
+                }
                 let idle = last_touch.get(&p).map(|t| t.elapsed());
                 let ev0 = w.events.len();
                 act(&mut w, &Op::Submit { from: 0, to: p as u8, body: Body::Ping, with_record: true });
@@ -310,7 +336,7 @@ async fn run(case: &Case, rep: &mut CaseReport) -> Option<(String, String)> {
                     // retransmissions (old ciphertext, no use of the session) would be mistaken for uses
                     continue;
                 }
-                if case.nat & (1 << (p - 1)) != 0 && matches!(then, After::VSubmits | After::VSubmitsThenStale | After::VSubmitsHandshakeLost | After::VSubmitsAfterKnocks) {
+                if case.nat & (1 << (p - 1)) != 0 && matches!(then, After::VSubmits | After::VSubmitsThenStale | After::VSubmitsHandshakeLost | After::VSubmitsAfterKnocks | After::VSubmitsAfterHandshakeKnocks) {
                     continue;
                 }
                 let mut held_for_later = Vec::new();
@@ -348,6 +374,7 @@ async fn run(case: &Case, rep: &mut CaseReport) -> Option<(String, String)> {
                 let need = Duration::from_millis(SHORT_TIMEOUT_MS * 13 / 10 + 5);
                 let mut last_knock = Instant::now();
                 let mut knocks = 0u32;
+                let mut hs_knocks = 0u32;
                 let mut retransmitted = false;
                 while t0.elapsed() <= need {
                     std::thread::sleep(Duration::from_millis(5));
@@ -364,6 +391,19 @@ async fn run(case: &Case, rep: &mut CaseReport) -> Option<(String, String)> {
                         w.pool.clear();
                         cut_at.insert(p, w.now_ms());
                     }
+                    if then == After::VSubmitsAfterHandshakeKnocks && last_knock.elapsed() >= Duration::from_millis(SHORT_TIMEOUT_MS / 3) {
+                        last_knock = Instant::now();
+                        let v_addr = w.nodes[0].addr;
+                        let hs = w.log.iter().rev().find(|d| d.from_node == Some(p) && d.to_addr == v_addr && matches!(d.decoded.as_ref().map(|x| &x.0.kind), Some(PacketKind::Handshake { .. }))).map(|d| (d.idx, d.bytes.clone()));
+                        if let Some((idx, bytes)) = hs {
+                            hs_knocks += 1;
+                            let from = w.nodes[p].addr;
+                            w.inject(0, from, bytes, Some(idx), Some("replay".into()));
+                            w.settle().await;
+                            w.step += 1;
+                            w.pool.clear();
+                        }
+                    }
                     if then == After::VSubmitsAfterKnocks && last_knock.elapsed() >= Duration::from_millis(SHORT_TIMEOUT_MS / 3) {
                         last_knock = Instant::now();
                         knocks += 1;
@@ -373,6 +413,9 @@ async fn run(case: &Case, rep: &mut CaseReport) -> Option<(String, String)> {
                         w.step += 1;
                         w.pool.clear();
                     }
+                }
+                if hs_knocks > 0 {
+                    rep.class("copies-of-the-peer's-handshake-packet-during-the-idle-period");
                 }
                 if knocks > 0 {
                     rep.class("undecryptable-packets-from-the-peer's-address-during-the-idle-period");
@@ -401,7 +444,7 @@ async fn run(case: &Case, rep: &mut CaseReport) -> Option<(String, String)> {
                     v
                 };
                 match then {
-                    After::VSubmits | After::VSubmitsThenStale | After::VSubmitsHandshakeLost | After::VSubmitsAfterKnocks => {
+                    After::VSubmits | After::VSubmitsThenStale | After::VSubmitsHandshakeLost | After::VSubmitsAfterKnocks | After::VSubmitsAfterHandshakeKnocks => {
                         act(&mut w, &Op::Submit { from: 0, to: p as u8, body: Body::Ping, with_record: true });
                         w.settle().await;
                         w.step += 1;
@@ -569,14 +612,14 @@ impl Property for C15 {
         tier.pick(1_200, 12_000)
     }
     fn strategy(_tier: Tier) -> BoxedStrategy<Case> {
-        let after = || prop_oneof![3 => Just(After::VSubmits), 3 => Just(After::PeerSubmits), 2 => Just(After::VSubmitsThenStale), 2 => Just(After::PeerSubmitsThenStale), 2 => Just(After::VSubmitsHandshakeLost), 2 => Just(After::VAnswersLate), 2 => Just(After::VSubmitsAfterKnocks), 2 => Just(After::PeerSubmitsAfterRetransmission)];
+        let after = || prop_oneof![3 => Just(After::VSubmits), 3 => Just(After::PeerSubmits), 2 => Just(After::VSubmitsThenStale), 2 => Just(After::PeerSubmitsThenStale), 2 => Just(After::VSubmitsHandshakeLost), 2 => Just(After::VAnswersLate), 2 => Just(After::VSubmitsAfterKnocks), 2 => Just(After::PeerSubmitsAfterRetransmission), 2 => Just(After::VSubmitsAfterHandshakeKnocks)];
         let op = || {
             prop_oneof![
                 5 => (0u8..6).prop_map(COp::ExchangeOut),
                 3 => (0u8..6).prop_map(COp::ExchangeIn),
                 3 => (0u8..6, after()).prop_map(|(p, a)| COp::IdleLong(p, a)),
                 1 => (30u8..100).prop_map(COp::Nap),
-                1 => (0u8..6).prop_map(COp::SubmitLost),
+                2 => (0u8..6).prop_map(COp::SubmitLost),
             ]
         };
         let nat = || prop_oneof![3 => Just(0u8), 1 => any::<u8>()];
@@ -652,7 +695,7 @@ impl Property for C15 {
         rep
     }
     fn rule() -> String {
-        "V (real handler, virtual wire) with session_cache_capacity 1..5 and session_timeout in {120 ms real, 1 day}, 2..6 honest peers; ops: complete exchanges in either direction (establish / refresh sessions) and, in the 120 ms regime, at most two real idle periods per case that last until the harness has MEASURED more than 1.3 x timeout since the end of the last op that touched that session, followed by V submitting a request to the idle peer, the idle peer sending V a request under its (unexpired) session, or V's application answering a request of that peer it has been holding since before the idle period, or the peer sending a request after V retransmitted (request_retries 3) a request of its own that was lost before the idle period, or V submitting after undecryptable packets in the peer's name kept arriving from its address every 40 ms during the idle period. In a quarter of the cases some peers are behind NAT (their record advertises another socket; they only ever contact V). X1: the datagram V then emits does not decrypt under any key V held before the idle period, and a message under the old session is not delivered before a new handshake; X2: V's probe snapshot never lists more sessions than the capacity; X3 (1-day regime): a session disappears only when a new one is established at full capacity, exactly one, and it belongs to the peer least recently used according to the harness ledger. Short naps (10..100 ms) let some sessions age while others are refreshed; by-construction scenarios: capacity pressure after a re-established session, the oldest session aging out while the others are refreshed twice and V then sending its peer a request that is lost (the expired entry must not outlive a live one when newcomers need room), and the oldest session aging out while the others are refreshed before newcomers arrive. Non-trivial = a measured long idle followed by traffic, or a session established at full capacity.".into()
+        "V (real handler, virtual wire) with session_cache_capacity 1..5 and session_timeout in {120 ms real, 1 day}, 2..6 honest peers; ops: complete exchanges in either direction (establish / refresh sessions) and, in the 120 ms regime, at most two real idle periods per case that last until the harness has MEASURED more than 1.3 x timeout since the end of the last op that touched that session, followed by V submitting a request to the idle peer, the idle peer sending V a request under its (unexpired) session, or V's application answering a request of that peer it has been holding since before the idle period, or the peer sending a request after V retransmitted (request_retries 3) a request of its own that was lost before the idle period, or V submitting after undecryptable packets in the peer's name (or copies of the handshake packet the peer once sent) kept arriving from its address every 40 ms during the idle period. In a quarter of the cases some peers are behind NAT (their record advertises another socket; they only ever contact V). X1: the datagram V then emits does not decrypt under any key V held before the idle period, and a message under the old session is not delivered before a new handshake; X2: V's probe snapshot never lists more sessions than the capacity; X3 (1-day regime): a session disappears only when a new one is established at full capacity, exactly one, and it belongs to the peer least recently used according to the harness ledger. Short naps (10..100 ms) let some sessions age while others are refreshed; by-construction scenarios: capacity pressure after a re-established session, the oldest session aging out while the others are refreshed twice and V then sending its peer a request that is lost (the expired entry must not outlive a live one when newcomers need room), and the oldest session aging out while the others are refreshed before newcomers arrive. Non-trivial = a measured long idle followed by traffic, or a session established at full capacity.".into()
     }
     fn assumptions() -> Vec<String> {
         vec![
